@@ -75,7 +75,7 @@ func (ch *c20Chain) runCase(run int, src string, kase *c20Case) map[string]inter
 			return out
 		}
 	}
-	lc := ch.newLC(lie, a.LC == "warm")
+	lc := ch.newLC(lie, a.H, a.LC, a.PP)
 	ev["have_before"] = ch.have(lc)
 	be := &c20Backend{ch: ch, kase: kase}
 	cl := NewClient(be, lc, KeyPathFn(DefaultMerkleKeyPathFn()))
@@ -177,7 +177,7 @@ func (ch *c20Chain) runCase(run int, src string, kase *c20Case) map[string]inter
 func (ch *c20Chain) runSearch(run int, src string, a c20Arg) map[string]interface{} {
 	ev := map[string]interface{}{"ev": "Search", "run": run, "src": src, "kind": "TxSearch", "a": a}
 	be := &c20Backend{ch: ch, kase: &c20Case{Kind: "TxSearch", A: a}}
-	cl := NewClient(be, ch.newLC(nil, false), KeyPathFn(DefaultMerkleKeyPathFn()))
+	cl := NewClient(be, ch.newLC(nil, 0, "fresh", ""), KeyPathFn(DefaultMerkleKeyPathFn()))
 	query := fmt.Sprintf("tx.height >= %d AND tx.height <= %d", a.Lo, a.Hi)
 	var res *ctypes.ResultTxSearch
 	var err error
@@ -380,7 +380,10 @@ func (ch *c20Chain) honestRoot(kind string, a c20Arg) (c20Rec, bool) {
 }
 
 func (ch *c20Chain) randArgs(rng *rand.Rand, kind string) (c20Arg, bool) {
-	a := c20Arg{LC: []string{"fresh", "warm"}[rng.Intn(2)]}
+	a := c20Arg{LC: []string{"fresh", "warm", "top", "top"}[rng.Intn(4)]}
+	if (kind == "Commit" || kind == "Validators") && a.LC == "top" && rng.Intn(2) == 0 {
+		a.PP = "break"
+	}
 	switch kind {
 	case "Block", "BlockByHash", "ConsensusParams", "Commit", "Validators":
 		a.H = 1 + rng.Int63n(ch.tip)
